@@ -308,6 +308,14 @@ func c18Cases(thorough bool) []c18Case {
 				cs = append(cs, c18Case{Kind: "header", Header: hn, Words: []string{wordOf(a, false), wordOf(b, false)}, Seps: []string{" "}})
 			}
 		}
+		// leading / trailing blanks with every total length around the folding point
+		for a := 40; a <= 90; a++ {
+			for _, tail := range []string{" ", "  ", "\t"} {
+				cs = append(cs, c18Case{Kind: "header", Header: hn, Words: []string{wordOf(a, false), ""}, Seps: []string{tail}},
+					c18Case{Kind: "header", Header: hn, Words: []string{"", wordOf(a, false)}, Seps: []string{tail}},
+					c18Case{Kind: "header", Header: hn, Words: []string{wordOf(20, false), wordOf(a-20, false), ""}, Seps: []string{" ", tail}})
+			}
+		}
 		// multiple blanks between words around the folding point
 		for a := 55; a <= 80; a++ {
 			for b := 55; b <= 80; b++ {
